@@ -77,6 +77,9 @@ pub const ALPHABET: &[Kind] = &[
     Kind { name: None, perms: "---p", off: 1 },
     Kind { name: Some("/opt/with space/lib C.so"), perms: "r-xp", off: 1 },
     Kind { name: None, perms: "r-xp", off: 0 },
+    // names without a slash that are not bracketed pseudo-names either
+    Kind { name: Some("anon_inode:[io_uring]"), perms: "rw-s", off: 0 },
+    Kind { name: Some("[anon:scudo:primary]"), perms: "rw-p", off: 0 },
 ];
 
 pub fn build_lines(kinds: &[(usize, bool, u64)], base: u64) -> Vec<Line> {
@@ -383,6 +386,7 @@ fn parse_line(t: &str) -> Option<Line> {
         "rw-p" => "rw-p",
         "---p" => "---p",
         "---s" => "---s",
+        "rw-s" => "rw-s",
         "rwxp" => "rwxp",
         _ => "rw-p",
     };
